@@ -141,11 +141,26 @@ WellFormed == /\ \A e \in edges : e[1] \in NodeSet /\ e[2] \in NodeSet
 ExecSafe == phase \in {"exec", "done"} => OnceOnly /\ AfterPreds
 ExecConfluent == phase = "done" => Confluent
 
+\* ---- graph queries of the common base class (input_tasks, output_tasks, get_predecessors,
+\*      get_successors, get_upstream_tasks, len) as functions of the abstract state
+PredSet(t) == {e[1] : e \in {f \in edges : f[2] = t}}
+SuccSet(t) == {e[2] : e \in {f \in edges : f[1] = t}}
+RECURSIVE Up(_, _)
+Up(S, k) == IF k = 0 THEN S ELSE Up(S \cup UNION {PredSet(x) : x \in S}, k - 1)
+Upstream(t) == Up(PredSet(t), Len(nodes))
+Sources == SelectSeq(nodes, LAMBDA n : PredSet(n) = {})
+\* a workflow with a single output task has no task outside that task's upstream closure:
+\* "every task is run" is a consequence of "the value of the output task is computed"
+SinkCollectsAll == Len(Sinks) = 1 => Upstream(Sinks[1]) \cup {Sinks[1]} = NodeSet
+UpstreamIrreflexive == \A t \in NodeSet : t \notin Upstream(t)
+Queries(ns) == [i \in 1..Len(ns) |-> [t |-> ns[i], p |-> PredSet(ns[i]), s |-> SuccSet(ns[i]), u |-> Upstream(ns[i])]]
+
 \* ---- case emission for replay into the implementation
 EdgeSeq == LET RECURSIVE Lst(_)
                Lst(S) == IF S = {} THEN <<>> ELSE LET e == CHOOSE x \in S : TRUE IN <<e>> \o Lst(S \ {e})
            IN Lst(edges)
 Case(outcome) == [hist |-> hist, nodes |-> nodes, edges |-> EdgeSeq, outcome |-> outcome,
+                  queries |-> Queries(nodes), sinks |-> Sinks, sources |-> Sources,
                   expected |-> IF outcome = "ok" THEN Value(Sinks[1]) ELSE "none"]
 EmitCase == /\ (phase = "exec" /\ \A t \in NodeSet : status[t] = "w") => PrintT(<<"CASE", ToJson(Case("ok"))>>)
             /\ phase = "refused" => PrintT(<<"CASE", ToJson(Case("ValueError"))>>)
